@@ -31,7 +31,7 @@ RULE = ("per configuration (frame, partitioning, npartitions, temp-dir mode, sto
         "retry budget) a fault-free baseline on the reference schedule fixes the fault points "
         "O_1..O_K (every SimFS call, write and close) and the reference dataset D*. Layer 1 "
         "enumerates every (k, kind) with kind in {EIO, ENOENT, AFTER, TORN, ENOSPC, VIS, DEL, "
-        "CRASH} applicable to O_k; layer 2 repeats one fault r times on the same operation; layer 3 "
+        "STALE, CRASH} applicable to O_k; layer 2 repeats one fault r times on the same operation; layer 3 "
         "samples pairs/triples; layer 4 samples faults under random multi-worker schedules. A run is "
         "non-trivial when at least one fault fired; distinct = distinct (configuration, fault plan) "
         "event-log digests.")
@@ -54,7 +54,7 @@ COMPONENTS = {
 EXPECTED_PROBES = ["retry_fired", "retry_budget_exhausted", "repeat_run_needed",
                    "crash_with_open_write", "not_yet_consistent_branch"]
 
-KINDS = ("EIO", "ENOENT", "AFTER", "TORN", "ENOSPC", "VIS", "DEL", "CRASH")
+KINDS = ("EIO", "ENOENT", "AFTER", "TORN", "ENOSPC", "VIS", "DEL", "STALE", "CRASH")
 REF_SIM = {"workers": 1, "strategy": "inorder", "switch_p": 0.0, "stall": False}
 SHORT_RETRY = {"wait_fixed": 50, "stop_max_attempt_number": 3}
 
@@ -222,7 +222,10 @@ def _execute(cfg, plan, repeat, simcfg, seed, want_ops=False):
     with seams.scratch(f"c19-{seed}") as root:
         if cfg.get("prev"):
             shutil.copytree(_prev_template(cfg), os.path.join(root, "ds"))
-        sim = e1.new_sim(seed, simcfg)
+        # on the reference schedule every run of a configuration uses the baseline's PRNG
+        # seed: the seeded uuids (temp-dir name, Dask keys) - and so the order of the fault
+        # points O_1..O_K - are then the same as in the baseline the plan refers to
+        sim = e1.new_sim(1 if simcfg == REF_SIM else seed, simcfg)
         iplan = {int(k): tuple(v) for k, v in plan.items()}
         rep = {(op, rel): [kind, r] for op, rel, kind, r in repeat}
         store, fs = e1.new_store(sim, root, cfg["store"], plan=iplan, repeat=rep)
@@ -317,6 +320,9 @@ def run_case(case):
     if sim.counters.get("deletion-not-complete"):
         probes["deletion_not_complete_branch"] = 1
     fired = dict(store.fired)
+    if case["layer"] in (1, 2) and not sum(fired.values()):
+        # the plan referred to a fault point that this run did not reach in the same way
+        probes["planned_fault_did_not_fire"] = 1
     first = None
     for k in sorted(int(x) for x in case["plan"]):
         if k <= len(store.ops):
